@@ -6,7 +6,8 @@ CONSTANTS Threads,      \* client threads
           NObj,         \* number of objects
           NCell,        \* number of shared link cells
           MaxOps,       \* client operations per thread between attach and detach
-          ScanBug       \* TRUE: classic_scan as coded (tests first retired ptr for every element)
+          ScanBug,      \* TRUE: classic_scan as coded (tests first retired ptr for every element)
+          StopAtEmpty   \* TRUE: seeded change C01: the hazard-slot loop of the scan stops at the first empty slot of a record
 Obj == 1..NObj
 Rec == 1..Cardinality(Threads)          \* at most one record per thread is ever created
 NULL == 0
@@ -49,8 +50,8 @@ SC1: while (ri <= Len(list)) {
        if (owner[list[ri]]) {                              \* load owner_rec_
          hi := 1;
 SC2:     while (hi <= K) {                                 \* load hazard slot
-           if (hp[list[ri]][hi] # NULL) { plist := plist \cup {hp[list[ri]][hi]}; };
-           hi := hi + 1;
+           if (hp[list[ri]][hi] # NULL) { plist := plist \cup {hp[list[ri]][hi]}; hi := hi + 1; }
+           else if (StopAtEmpty) { hi := K + 1; } else { hi := hi + 1; };
          };
        };
 SC3:   ri := ri + 1;
@@ -170,7 +171,7 @@ M1: \* ~basic_smr: free remaining retired pointers of all records
     destroyed := TRUE;
 }
 } *)
-\* BEGIN TRANSLATION (chksum(pcal) = "8c7764aa" /\ chksum(tla) = "420239ab")
+\* BEGIN TRANSLATION
 VARIABLES pc, list, owner, freeFlag, hp, retired, nrec, cell, nextObj, ostate, 
           dcount, snap, valid, destroyed, fin, stack
 
@@ -263,9 +264,11 @@ SC2(self) == /\ pc[self] = "SC2"
              /\ IF hi[self] <= K
                    THEN /\ IF hp[list[ri[self]]][hi[self]] # NULL
                               THEN /\ plist' = [plist EXCEPT ![self] = plist[self] \cup {hp[list[ri[self]]][hi[self]]}]
-                              ELSE /\ TRUE
+                                   /\ hi' = [hi EXCEPT ![self] = hi[self] + 1]
+                              ELSE /\ IF StopAtEmpty
+                                         THEN /\ hi' = [hi EXCEPT ![self] = K + 1]
+                                         ELSE /\ hi' = [hi EXCEPT ![self] = hi[self] + 1]
                                    /\ plist' = plist
-                        /\ hi' = [hi EXCEPT ![self] = hi[self] + 1]
                         /\ pc' = [pc EXCEPT ![self] = "SC2"]
                    ELSE /\ pc' = [pc EXCEPT ![self] = "SC3"]
                         /\ UNCHANGED << plist, hi >>
@@ -292,7 +295,7 @@ SC5(self) == /\ pc[self] = "SC5"
                                   THEN /\ keep' = [keep EXCEPT ![self] = Append(keep[self], o)]
                                        /\ UNCHANGED << ostate, dcount >>
                                   ELSE /\ Assert(~(\E x \in snap[self] : x[3] = o), 
-                                                 "Failure of assertion at line 64, column 12.")
+                                                 "Failure of assertion at line 65, column 12.")
                                        /\ dcount' = [dcount EXCEPT ![o] = dcount[o] + 1]
                                        /\ ostate' = [ostate EXCEPT ![o] = "disposed"]
                                        /\ keep' = keep
@@ -386,7 +389,7 @@ HS4(self) == /\ pc[self] = "HS4"
 HS5(self) == /\ pc[self] = "HS5"
              /\ IF mi[self] <= Len(retired[list[hr[self]]])
                    THEN /\ Assert(Len(retired[rec[self]]) < R, 
-                                  "Failure of assertion at line 90, column 18.")
+                                  "Failure of assertion at line 91, column 18.")
                         /\ retired' = [retired EXCEPT ![rec[self]] = Append(retired[rec[self]], retired[list[hr[self]]][mi[self]])]
                         /\ mi' = [mi EXCEPT ![self] = mi[self] + 1]
                         /\ IF Len(retired'[rec[self]]) >= R
@@ -522,7 +525,7 @@ C0(self) == /\ pc[self] = "C0"
                              /\ UNCHANGED <<stack, plist, idx, ri, hi, keep, firstp>>
                           \/ /\ \E k \in { s \in Slots : valid[self][s] # NULL }:
                                   Assert(ostate[valid[self][k]] # "disposed", 
-                                         "Failure of assertion at line 134, column 12.")
+                                         "Failure of assertion at line 135, column 12.")
                              /\ pc' = [pc EXCEPT ![self] = "C1"]
                              /\ UNCHANGED <<stack, plist, idx, ri, hi, keep, firstp, kk, cc>>
                           \/ /\ \E k \in { s \in Slots : hp[rec[self]][s] # NULL }:
@@ -624,7 +627,7 @@ U1(self) == /\ pc[self] = "U1"
 
 U2(self) == /\ pc[self] = "U2"
             /\ Assert(Len(retired[rec[self]]) < R, 
-                      "Failure of assertion at line 145, column 12.")
+                      "Failure of assertion at line 146, column 12.")
             /\ retired' = [retired EXCEPT ![rec[self]] = Append(retired[rec[self]], old[self])]
             /\ IF Len(retired'[rec[self]]) >= R
                   THEN /\ stack' = [stack EXCEPT ![self] = << [ procedure |->  "scan",
